@@ -4,7 +4,7 @@
    properties with a <name>Map spelling) and by the literal codecs of streams/values (Streams/CodecInst.v). *)
 From Coq Require Import String List Bool Arith ZArith.
 From Verif Require Import Base.ListX Base.Json Vocab.Tables Gen.TablesShipped Streams.Literals Streams.Codec Streams.CodecInst.
-From Verif Require Import Proofs.CodecProofs Proofs.IdemProofs Proofs.TimeIdemProofs Proofs.DocIdemProofs.
+From Verif Require Import Proofs.CodecProofs Proofs.IdemProofs Proofs.TimeIdemProofs Proofs.DocIdemProofs Proofs.DocKeptProofs.
 Import ListNotations.
 Open Scope string_scope.
 Open Scope list_scope.
@@ -149,6 +149,29 @@ Theorem C01_doc_roundtrip : forall T P url_ok norm_iri norm n m row,
   rt_doc T P url_ok norm_iri norm (S n) (JObj m) = Some (JObj (remove_key "@context" m)).
 Proof. exact rt_doc_identity. Qed.
 
+(* ---- "no member is silently dropped other than a nested @context or a JSON null given for a known property (a natural-
+   language member may reappear under its other spelling)", for whole documents and any tables / codecs: every member other
+   than the top-level @context comes back - unknown ones verbatim up to clean_val (the deletion of @context inside maps reached
+   through maps), known ones under out_name - unless it encodes to null or is the Map spelling next to the plain one (F13) ---- *)
+Theorem C01_doc_members_kept : forall T P url_ok norm_iri norm n m d1,
+  rt_doc T P url_ok norm_iri norm n (JObj m) = Some d1 ->
+  exists row m', type_of_doc T m = Some row /\ d1 = JObj m' /\
+    forall kv, In kv m -> fst kv <> "@context" ->
+      match prop_of_key P row (fst kv) with
+      | None => In (fst kv, clean_val (snd kv)) m'
+      | Some (p, is_map) =>
+          let w := rt_prop T url_ok norm_iri norm (rt_type T P url_ok norm_iri norm (pred n)) p (snd kv) in
+          (is_map = true /\ assoc (p_name p) m <> None) \/ w = JNull \/ In (out_name p w, clean_val w) m'
+      end.
+Proof. exact rt_doc_members_kept. Qed.
+(* ---- exactness made decidable for the shipped codecs: canonical_scalar is `lexical` exactly (a string that is a dateTime /
+   duration is printed as the codec prints it; the numbers 0 and 1 are not canonical - xsd:boolean writes them as false / true);
+   canonical_doc (boolean) implies the document is its own round trip up to the rebuilt top-level @context ---- *)
+Theorem C01_canonical_scalar : forall e, canonical_scalar e = true <-> lexical url_ok norm_iri norm e.
+Proof. exact canonical_scalar_lexical. Qed.
+Theorem C01_canonical_doc_roundtrip : forall d, canonical_doc d = true -> rt_shipped d = Some (jremove "@context" d).
+Proof. exact rt_shipped_canonical. Qed.
+
 Print Assumptions C01_roundtrip.
 Print Assumptions C01_members_kept.
 Print Assumptions C01_both_spellings_refuted.
@@ -164,3 +187,6 @@ Print Assumptions C01_overflowing_duration_kept.
 Print Assumptions C01_doc_idempotent_shipped.
 Print Assumptions C01_context_in_language_map_refuted.
 Print Assumptions C01_doc_roundtrip.
+Print Assumptions C01_doc_members_kept.
+Print Assumptions C01_canonical_scalar.
+Print Assumptions C01_canonical_doc_roundtrip.
